@@ -723,3 +723,68 @@ func SortMaps(s *Schema, typ string, tv TV) TV {
 	}
 	return out
 }
+
+// Vocabulary lists the strings that mean something in the schema (type names, field names,
+// serial names, discriminants, enum member names and their representations).
+func (s *Schema) Vocabulary() []string {
+	seen := map[string]bool{}
+	var out []string
+	add := func(w string) {
+		if !seen[w] {
+			seen[w] = true
+			out = append(out, w)
+		}
+	}
+	for _, t := range s.Types {
+		add(t.Name)
+		for _, f := range t.Fields {
+			add(f.Name)
+			add(f.Serial())
+		}
+		for _, m := range t.Members {
+			add(m.Type)
+			if m.Discr != "" {
+				add(m.Discr)
+				add(m.Discr + t.Delim)
+			}
+		}
+		for _, e := range t.Enum {
+			add(e.Name)
+			add(e.Str)
+		}
+	}
+	return out
+}
+
+// SubstituteWord replaces the string at position at (or one key of the map there) by word.
+func SubstituteWord(v val.V, at int, word string, which int) (val.V, bool) {
+	c := v.Clone()
+	n := 0
+	ok := false
+	var rec func(x *val.V) bool
+	rec = func(x *val.V) bool {
+		if n == at {
+			switch {
+			case x.K == val.String:
+				x.S, ok = word, true
+			case x.K == val.Map && len(x.Ents) > 0:
+				x.Ents[which%len(x.Ents)].K, ok = word, true
+			}
+			return true
+		}
+		n++
+		for i := range x.Items {
+			if rec(&x.Items[i]) {
+				return true
+			}
+		}
+		for i := range x.Ents {
+			if rec(&x.Ents[i].V) {
+				return true
+			}
+		}
+		return false
+	}
+	rec(&c)
+	return c, ok
+}
